@@ -720,31 +720,6 @@ def merge_measure_contents(notes, other, measure_start, measure_end):
 def do_directions(part, start, end, counter):
     result = []
 
-    # ending directions
-    directions = part.iter_all(
-        score.DynamicDirection,
-        start.next,
-        end.next,
-        include_subclasses=True,
-        mode="ending",
-    )
-
-    for direction in directions:
-        text = direction.raw_text or direction.text
-        e0 = etree.Element("direction")
-        e1 = etree.SubElement(e0, "direction-type")
-
-        if getattr(direction, "wedge", False):
-            number = range_number_from_counter(direction, "wedge", counter)
-            e2 = etree.SubElement(e1, "wedge", number="{}".format(number), type="stop")
-
-        else:
-            number = range_number_from_counter(direction, "dashes", counter)
-            etree.SubElement(e1, "dashes", number="{}".format(number), type="stop")
-
-        elem = (direction.end.t, None, e0)
-        result.append(elem)
-
     tempos = part.iter_all(score.Tempo, start, end)
     directions = part.iter_all(score.Direction, start, end, include_subclasses=True)
 
@@ -848,7 +823,35 @@ def do_directions(part, start, end, counter):
             elem = (direction.start.t, None, e0)
             result.append(elem)
 
-    return result
+    # ending directions (handled after the starting ones, so that the number of a
+    # range that ends in this segment is not handed to a range that starts in it
+    # while the first is still open; they still come first in the result)
+    ending = []
+    directions = part.iter_all(
+        score.DynamicDirection,
+        start.next,
+        end.next,
+        include_subclasses=True,
+        mode="ending",
+    )
+
+    for direction in directions:
+        text = direction.raw_text or direction.text
+        e0 = etree.Element("direction")
+        e1 = etree.SubElement(e0, "direction-type")
+
+        if getattr(direction, "wedge", False):
+            number = range_number_from_counter(direction, "wedge", counter)
+            e2 = etree.SubElement(e1, "wedge", number="{}".format(number), type="stop")
+
+        else:
+            number = range_number_from_counter(direction, "dashes", counter)
+            etree.SubElement(e1, "dashes", number="{}".format(number), type="stop")
+
+        elem = (direction.end.t, None, e0)
+        ending.append(elem)
+
+    return ending + result
 
 
 def do_harmony(part, start, end):
